@@ -5,7 +5,7 @@ import itertools
 from . import evmexec
 from .evm import evm_py, ARITY
 
-ORDERED = ("MLOAD", "SLOAD", "KECCAK256", "SHA3", "MSTORE", "MSTORE8", "SSTORE")
+ORDERED = ("MLOAD", "SLOAD", "KECCAK256", "SHA3", "MSTORE", "MSTORE8", "SSTORE", "MSIZE")   # MSIZE reads the memory size: its position matters
 
 
 def is_ordered(instr):
